@@ -142,7 +142,7 @@ func service(raw json.RawMessage, resp *drv.Response) error {
 			return fmt.Errorf("setup: %v", err)
 		}
 		resp.Note("compile_setup_s", int(time.Since(t0).Seconds()))
-		g, err := geometry(tmpl)
+		g, err := geometry(data.Load(inst, k)) // a fresh copy: frontend.Compile rewrote the template's leaves
 		if err != nil {
 			return err
 		}
